@@ -287,7 +287,7 @@ func onlyBytes(fm *Frame) error {
 	// Discard values in a goroutine.
 	valuesDone := make(chan struct{})
 	go func() {
-		for range fm.InputChan() {
+		for range fm.inputValues() {
 		}
 		close(valuesDone)
 	}()
@@ -311,7 +311,7 @@ func onlyValues(fm *Frame) error {
 
 	// Forward values.
 	out := fm.ValueOutput()
-	for v := range fm.InputChan() {
+	for v := range fm.inputValues() {
 		err := out.Put(v)
 		if err != nil {
 			return err
